@@ -172,10 +172,10 @@ func init() {
 		Rule: "concurrent client histories (3-8 goroutines over 1-3 handles of one bucket, 1-3 document keys + a counter key, in-memory and on-disk) recorded at the client boundary with call/return ticks from one atomic counter and unique tokens in every written value; decided per key by porcupine v1.3.0 against a sequential model (Update / WriteUpdateWithXattrs steps require that the stored value was built on exactly the version the callback was shown last); conservation monitors for Incr sums and Update / WriteUpdateWithXattrs token lists; PRNG-determined yields/sleeps at the out-of-mutex hook points; every workload repeated under the Go race detector (reports count only when both stacks have rosmar frames; signatures owned by other properties are listed as foreign); a cell is a distinct interleaving fingerprint (per-key (client, op kind) sequence in return order)",
 		Assumptions: []string{"schedules are sampled (plus hook-point noise), not enumerated; a porcupine timeout is inconclusive", "expiry and revision numbers are not part of the concurrent model (decided sequentially by C14 / C17)"},
 		Parts: []sup.Part{
-			mk("linz", 300, 6000, false, linzScenario),
-			mk("conservation", 100, 2000, false, conservationScenario),
-			mk("linz-race", 40, 500, true, linzScenario),
-			mk("conservation-race", 20, 200, true, conservationScenario),
+			mk("linz", 2000, 40000, false, linzScenario),
+			mk("conservation", 600, 12000, false, conservationScenario),
+			mk("linz-race", 150, 3000, true, linzScenario),
+			mk("conservation-race", 60, 1200, true, conservationScenario),
 		},
 		RaceOwner: raceOwner("C03"),
 		Floor: func(tier string, m *sup.Merged) string {
